@@ -133,7 +133,13 @@ func init() {
 		components: map[string]string{"internal/pkg/reactor": "real code with hook points (build tag verif)", "producers, consumers, freeze controller": "simulated client actors", "scheduler, select tie-breaks": "owned by the simulator"},
 		rule:       "one case = one bubble: 1-5 tokens, 1-3 producers, 1-3 consumers (answering each delivered seed with finish, repeated finish, feedback, or feedback for an unknown id), optional freeze at a scheduled point; all operations, schedule decisions and select tie-breaks drawn from one tape; distinct = distinct event-log hash; every case interleaves >= 2 actors, so all count as non-trivial",
 		planFn: func(p *propDef, tier string, seed uint64, n int) []*Case {
-			return compCases("C12", "reactor", n, 150, seed, nil)
+			cases := compCases("C12", "reactor", n, 150, seed, nil)
+			// the token-count dimension: thousands of tokens, all in use at once (real package, blocking decided by quiescence)
+			for _, c := range compCases("C12", "reactorbig", max(1, n/16), 7, seed^0xb16, nil) {
+				c.Idx = len(cases)
+				cases = append(cases, c)
+			}
+			return cases
 		}}
 	props["C14"] = &propDef{level: "exploration", assumptions: compAssumptions, quickRuns: 32, thorRuns: 600,
 		components: map[string]string{"internal/pkg/controler/pause": "real code with hook points", "subscribers": "simulated workers with the shape of the stage worker loops (the real loops run in the pipeline engine, where C03's stop/pause enumeration exercises them)", "controllers (disk watchdog, WARC-queue watchdog, operator)": "simulated actors issuing matched and unmatched Pause/Resume sequences", "scheduler, select tie-breaks": "owned by the simulator"},
